@@ -210,17 +210,34 @@ func expected(s scenario) expect {
 }
 
 func checkObs(c *vk.Ctx, s scenario, w witness, o observation) {
+	checkObsNamed(c, s, w, o, nil, "")
+}
+
+// checkObsNamed is checkObs for sources spelled all[i] on the command line
+// (nil = the default names); pre prefixes the violation classes.
+func checkObsNamed(c *vk.Ctx, s scenario, w witness, o observation, all []string, pre string) {
 	e := expected(s)
+	if all != nil {
+		srcs, bases := names(s)
+		def := append(append([]string{}, srcs...), bases...)
+		for k, n := range e.errFor {
+			for i := range def {
+				if def[i] == n {
+					e.errFor[k] = all[i]
+				}
+			}
+		}
+	}
 	if o.panicv != "" {
-		c.Violation("panic", w, o.panicv)
+		c.Violation(pre+"panic", w, o.panicv)
 		return
 	}
 	if e.fail {
 		if o.err == "" {
-			c.Violationf("overall/should-fail", w, "no source (or no base) could be fetched but pprof succeeded")
+			c.Violationf(pre+"overall/should-fail", w, "no source (or no base) could be fetched but pprof succeeded")
 		}
 	} else if o.err != "" {
-		c.Violationf("overall/should-succeed", w, "some sources fetched fine but pprof failed: %s", o.err)
+		c.Violationf(pre+"overall/should-succeed", w, "some sources fetched fine but pprof failed: %s", o.err)
 		return
 	}
 	// one message per failed source, naming it
@@ -232,7 +249,7 @@ func checkObs(c *vk.Ctx, s scenario, w witness, o observation) {
 			}
 		}
 		if cnt != 1 {
-			c.Violationf("errors/one-per-failed-source", w, "source %s failed; %d messages name it: %q", n, cnt, o.uiErrs)
+			c.Violationf(pre+"errors/one-per-failed-source", w, "source %s failed; %d messages name it: %q", n, cnt, o.uiErrs)
 		}
 	}
 	if e.fail {
@@ -240,7 +257,7 @@ func checkObs(c *vk.Ctx, s scenario, w witness, o observation) {
 	}
 	p, err := profile.ParseData(o.out)
 	if err != nil {
-		c.Violationf("output/unparsable", w, "%v", err)
+		c.Violationf(pre+"output/unparsable", w, "%v", err)
 		return
 	}
 	got := map[string]int64{}
@@ -256,10 +273,10 @@ func checkObs(c *vk.Ctx, s scenario, w witness, o observation) {
 		}
 	}
 	if fmt.Sprint(sortedMap(got)) != fmt.Sprint(sortedMap(e.values)) {
-		c.Violationf("merge/values", w, "want %v got %v", sortedMap(e.values), sortedMap(got))
+		c.Violationf(pre+"merge/values", w, "want %v got %v", sortedMap(e.values), sortedMap(got))
 	}
 	if fmt.Sprint(p.Comments) != fmt.Sprint(e.comments) {
-		c.Violationf("merge/command-line-order", w, "comments want %v got %v", e.comments, p.Comments)
+		c.Violationf(pre+"merge/command-line-order", w, "comments want %v got %v", e.comments, p.Comments)
 	}
 }
 
@@ -331,15 +348,18 @@ func Run(c *vk.Ctx) {
 		c.Violation("harness/wrong-build", nil, "C16 needs the instrumented build")
 		return
 	}
-	maxSrc, maxBase, maxFail, preempt := 3, 1, 2, 2
+	maxSrc, maxBase, maxFail, preempt, maxAll := 3, 2, 2, 2, 4
 	if c.Thorough() {
-		maxSrc, maxBase, maxFail, preempt = 4, 1, 2, 3
+		maxSrc, maxBase, maxFail, preempt, maxAll = 4, 2, 2, 3, 5
 	}
-	c.Note(fmt.Sprintf("small family: sources 1..%d, bases 0..%d, <=%d failures x 4 kinds (+all fail); every completion permutation with preemption bound 1, identity and reversed completion order with preemption bound %d at sync points; boundary family: n in {127,128,129,130,256,257,300}", maxSrc, maxBase, maxFail, preempt))
+	c.Note(fmt.Sprintf("small family: sources 1..%d, bases 0..%d (at most %d fetches in all), <=%d failures x 4 kinds (+all fail); every completion permutation with preemption bound 1, identity and reversed completion order with preemption bound %d at sync points; boundary family: n in {127,128,129,130,256,257,300}", maxSrc, maxBase, maxAll, maxFail, preempt))
 	var idx int64
 	for ns := 1; ns <= maxSrc; ns++ {
 		for nb := 0; nb <= maxBase; nb++ {
 			m := ns + nb
+			if m > maxAll {
+				continue
+			}
 			ps := perms(m)
 			for _, fp := range failurePatterns(m, maxFail) {
 				s := scenario{NSrc: ns, NBase: nb, Fail: fp}
@@ -356,6 +376,7 @@ func Run(c *vk.Ctx) {
 			}
 		}
 	}
+	realFamily(c, &idx)
 	boundary(c, &idx)
 }
 
